@@ -415,4 +415,27 @@ def run(ctx):
             ctx.violation(key, what, witness={'case': case, 'outcome': outcome, 'violating_event_index': at, 'events': rec.events[: at + 6]})
 
 
-# BREAKS-TRIED
+# ------------------------------------------------------------------------------------------------
+# Unchanged tree (78296c9bd): exit 1 for seeds 0..4 in both tiers with exactly two mechanism keys, both genuine,
+# one root cause (callers await the shared load task unshielded, the first one through prom_async_time):
+#   first-caller-cancel-propagates-to-waiters   (the caller that created the load task is cancelled -> the task is
+#                                                cancelled -> every other caller of the key gets CancelledError)
+#   waiter-cancel-propagates-to-other-callers   (a later caller, `return await self._futures[k]`, is cancelled -> same)
+# Proposed repair: /verif/proposed_fixes/C26-first-caller-cancel-propagates-to-waiters.diff (the load + put + evict run
+# in their own task; every caller awaits asyncio.shield(task)).  With the repair applied in a scratch worktree: exit 0
+# for seeds 0..4 in both tiers, and batch/test/test_time_limited_max_size_cache.py still passes.
+#
+# Breaks tried on top of the repaired scratch worktree (gear/gear/time_limited_max_size_cache.py,
+# VERIF_REPO=/tmp/scratch-async, quick tier, seed 0), one at a time:
+#   B1 (DESIGN) skip `_evict_oldest()`                                   -> caught  bounded/over-capacity
+#   B2 (DESIGN) expiry test `<` for `<=`                                 -> NOT a violation of the statement (exit 0):
+#      the mutant returns values of age == lifetime exactly ("older than its lifetime" is age > lifetime); the counter
+#      returned_at_exact_lifetime goes from 0 to 2998, i.e. the boundary is exercised; with FRESH_STRICT = True
+#      (DESIGN's stricter wording) it is flagged as fresh/stale-value-returned
+#   B3 sliding expiration (a hit re-puts the entry)                      -> caught  fresh/stale-value-returned
+#      (needs a chain of hits each younger than lifetime that together span more than lifetime)
+#   B4 `del self._futures[k]` when the load starts instead of when it ends -> caught single-flight/concurrent-loads
+#      (needs a second lookup of the key while the load is in flight)
+#   B5 half repair: own task but `await self._futures[k]` without shield -> caught  first-caller-... / waiter-cancel-...
+#   B6 `_evict_oldest` forgets `del self._cache[k]`                      -> caught  bounded/over-capacity, fresh/stale-value-returned
+#   B7 a failed load stays in `_futures` (negative caching)              -> caught  lookup-failed-without-cause
